@@ -460,7 +460,7 @@ def make_external_location_batch(
 
     """
     batch = pa.RecordBatch.from_arrays(
-        [pa.array([], type=f.type) for f in schema],
+        [pa.nulls(0, type=f.type) for f in schema],
         schema=schema,
     )
     meta: dict[bytes, bytes] = {LOCATION_KEY: url.encode()}
